@@ -268,6 +268,127 @@ def check_setter_steps(ctx, fx, rule):
                               else "does not strip a delimiter from its argument")),
                       where=f["loc"].replace("/repo/", ""), nontrivial=bool(want))
     ctx.floor(rule, n, 14, "setters compared with the Standard's argument handling")
+    check_empty_value_clears(ctx, fx, rule)
+
+
+# spellings the Standard fixes inside particular parser states (string literals of three or more bytes)
+STATE_LITERALS = {
+    "AUTHORITY": {"%40": "a second '@' is kept as \"%40\" in the credentials"},
+    "FILE_HOST": {"localhost": "a file host \"localhost\" becomes the empty host"},
+    "OPAQUE_PATH": {"%20": "a space in front of '?'/'#' in an opaque path is written as \"%20\""},
+}
+
+
+def check_parser_literals(ctx, fx, rule):
+    from rules import statemachine as SM
+    n = 0
+    for f, m in SM.machines(fx):
+        tag = SM.inst_tag(f)
+        if not tag.endswith("true"):
+            continue
+        for st, want in sorted(STATE_LITERALS.items()):
+            if st not in m.region:
+                ctx.broken("%s: state %s not found in parse_url_impl<%s>" % (rule, st, tag))
+            region = set(m.region[st])
+            for y in m.fallthrough.get(st, ()):
+                region -= m.region[y]
+            got, rfinds = set(), []
+            for bid in region:
+                b = m.blocks[bid]
+                nodes = [x for s_ in b["stmts"] for x in X.stmt_nodes(s_)]
+                c = C.term_cond(b)
+                if c is not None:
+                    nodes += list(X.walk(c))
+                for x in nodes:
+                    if (x.get("k") == "lit" and x.get("str") and len(x["v"]) >= 3 and " " not in x["v"]
+                            and not any(ch in x["v"] for ch in ("/", chr(92), "?", "#"))):
+                        got.add(x["v"])
+                    if (x.get("k") == "call" and x.get("name") in ("rfind", "find_last_of") and x.get("args")
+                            and X.const_val(x["args"][0]) in (ord(":"), ord("@"))):
+                        rfinds.append(X.show(x)[:50])
+                    # one level into free helper functions called from the state
+                    if x.get("k") == "call" and x.get("fp") and not x.get("method") and x.get("callee"):
+                        g = fx.fn(x["callee"])
+                        if g is not None and g.get("blocks") and C.first_party(g):
+                            for y, _s, _b in C.all_nodes(g):
+                                if y.get("k") == "lit" and y.get("str") and y["v"] in want:
+                                    got.add(y["v"])
+            n += 1
+            miss = sorted(set(want) - got)
+            extra = sorted(x for x in got - set(want) if x.startswith("%") or x.isalpha())
+            ctx.check(rule, "parse_url_impl<%s>: fixed spellings of state %s" % (tag, st), not miss and not extra and
+                      not (st == "AUTHORITY" and rfinds), ", ".join(sorted(got)),
+                      "state %s uses the literals {%s}%s%s%s" % (
+                          st, ", ".join(sorted(got)),
+                          "; missing %s" % ", ".join("\"%s\" (%s)" % (x, want[x]) for x in miss) if miss else "",
+                          "; unexpected %s" % ", ".join(extra) if extra else "",
+                          "; searches ':' / '@' from the end (%s): the password starts at the FIRST ':' of the credentials"
+                          % ", ".join(rfinds) if (st == "AUTHORITY" and rfinds) else ""),
+                      where=m.blocks[m.case_entry[st]].get("label", {}).get("loc", f["loc"]).replace("/repo/", ""))
+    # the host setter's "localhost" for file URLs
+    for cls in ("ada::url", "ada::url_aggregator"):
+        for f in fx.fns("%s::set_host_or_hostname" % cls):
+            lits = {x["v"] for x, _s, _b in C.all_nodes(f) if x.get("k") == "lit" and x.get("str")}
+            n += 1
+            ctx.check(rule, "%s: file host \"localhost\"" % f["key"].split("(")[0], "localhost" in lits, "localhost",
+                      "%s no longer compares the new host with \"localhost\": for a file URL that host is replaced by the empty host"
+                      % f["key"], where=f["loc"].replace("/repo/", ""))
+    ctx.floor(rule, n, 8, "fixed spellings compared")
+
+
+# "If the given value is the empty string, then set this's URL's port/query/fragment to null" -- what the empty-value arm
+# of the three setters must do before it returns (tokens of the two storage representations)
+EMPTY_CLEARS = {
+    "set_port": ("port", ("clear_port(", "port = std::nullopt", "port.reset(")),
+    "set_search": ("query", ("clear_search(", "query = std::nullopt", "query.reset(")),
+    "set_hash": ("fragment", ("clear_hash(", "hash = std::nullopt", "hash.reset(", "hash_start = ada::url_components::omitted",
+                              "hash_start = url_components::omitted")),
+}
+
+
+def check_empty_value_clears(ctx, fx, rule):
+    n = 0
+    for cls in ("ada::url", "ada::url_aggregator"):
+        for nm, (what, tokens) in sorted(EMPTY_CLEARS.items()):
+            f = fx.fn1("%s::%s" % (cls, nm))
+            blocks = {b["id"]: b for b in f["blocks"]}
+            p0 = (f.get("params") or [{}])[0].get("id")
+            found = cleared = False
+            for b in f["blocks"]:
+                c = C.term_cond(b)
+                c0 = X.strip(c) if c is not None else None
+                neg = False
+                while isinstance(c0, dict) and c0.get("k") == "un" and c0.get("op") == "!":
+                    neg = not neg
+                    c0 = X.strip(c0["e"])
+                if not (isinstance(c0, dict) and c0.get("k") == "call" and c0.get("name") == "empty" and c0.get("recv") is not None):
+                    continue
+                r0 = X.strip(c0["recv"])
+                if not (isinstance(r0, dict) and r0.get("k") == "ref" and r0.get("id") == p0):
+                    continue
+                found = True
+                start = [e["to"] for e in b["succ"] if e.get("when") == ("false" if neg else "true") and not e.get("pruned")]
+                # region of the empty-value arm: up to its return
+                seen, st, txt = set(), list(start), []
+                while st:
+                    x = st.pop()
+                    if x in seen or x == f["exit"]:
+                        continue
+                    seen.add(x)
+                    bb = blocks[x]
+                    txt += [X.show(e) for s_ in bb["stmts"] for e in X.stmt_exprs(s_)]
+                    if any(s_["k"] == "return" for s_ in bb["stmts"]):
+                        continue
+                    st += [e["to"] for e in bb["succ"] if not e.get("pruned")]
+                joined = " ; ".join(txt).replace("this->", "").replace("components.", "")
+                cleared = any(t in joined for t in tokens)
+            n += 1
+            ctx.check(rule, "%s::%s(\"\") sets the %s to null" % (cls.split("::")[-1], nm, what), found and cleared,
+                      "the empty-value arm clears the %s" % what,
+                      "%s::%s %s: 'If the given value is the empty string, then set this URL's %s to null'" % (
+                          cls, nm, "has no `input.empty()` arm" if not found else "returns from its empty-value arm without clearing the " + what,
+                          what), where=f["loc"].replace("/repo/", ""))
+    ctx.floor(rule, n, 6, "empty-value arms of the port/search/hash setters")
 
 
 # ---------------------------------------------------------------------------------------------------------------
